@@ -412,8 +412,12 @@ class Exec:
             return self.ev(tgt.value, st, got, K)
         raise Unsupported("assignment target " + ast.unparse(tgt))
     def st_Assign(self, s, st, k, K):
-        if len(s.targets) != 1: raise Unsupported("multiple assignment targets")
-        return self.ev(s.value, st, lambda st2, v: self.assign(s.targets[0], v, st2, k, K), K)
+        def got(st2, v):          # a = b = value: the value is evaluated once and bound to every target, left to right
+            def go(i, s3):
+                if i == len(s.targets): return k(s3)
+                return self.assign(s.targets[i], v, s3, lambda s4: go(i + 1, s4), K)
+            return go(0, st2)
+        return self.ev(s.value, st, got, K)
     def st_AnnAssign(self, s, st, k, K):
         if s.value is None: return k(st)
         return self.ev(s.value, st, lambda st2, v: self.assign(s.target, v, st2, k, K), K)
